@@ -174,6 +174,129 @@ def gen_tree_history(rng, with_handlers, foreign):
     if rng.random() < 0.3: emit("flush")
     emit("end")
 
+def gen_drag_history(rng):
+    """drag gestures aimed at a window: root > panel > handle (> grip), every window's position known to the generator, so
+    that PRESS / DRAG land on the chosen window and DRAG_START reaches its handler.  The handler (bound before the press
+    or between the press and the first drag, so that DRAG_START is the first event it sees) closes, hides, drops or
+    restacks its own window or one of its ancestors and claims the event or not; afterwards, outside any handler, the
+    application drops or closes windows of the chain (the drag source, its parent, its grandparent) in every order, then
+    further DRAG reports (inside the source, elsewhere, outside every window) and the RELEASE arrive."""
+    L, C = rng.choice([(10, 20), (12, 30), (8, 16)])
+    emit("new %d %d" % (L, C))
+    depth = rng.choice([1, 2, 2, 2, 3, 3])
+    # window k+1 is a child of window k; absolute position of each
+    absr = {0: (0, 0, L, C)}
+    chain = [0]
+    t, l, n, c = rng.randint(0, 2), rng.randint(0, 3), rng.randint(5, L - 2), rng.randint(8, C - 3)
+    for d in range(depth):
+        pt, pl, pn, pc = absr[chain[-1]]
+        if d > 0:
+            t, l = rng.randint(0, 1), rng.randint(0, 2)
+            n, c = max(1, pn - t - rng.randint(0, 1)), max(2, pc - l - rng.randint(0, 2))
+        emit("win %d %d %d %d %d %d" % (chain[-1], t, l, n, c, rng.choice([0, 0, 0, 0, 2, 8])))
+        w = len(absr)
+        absr[w] = (pt + t, pl + l, min(n, pn - t), min(c, pc - l))
+        chain.append(w)
+    nw = len(absr)
+    # a sibling or two somewhere (not covering the chain's last window: lowest, or elsewhere)
+    for _ in range(rng.choice([0, 0, 1, 2])):
+        p = rng.choice(chain[:-1])
+        emit("win %d %d %d %d %d 2" % (p, rng.randint(0, 3), rng.randint(0, 6), rng.randint(1, 3), rng.randint(1, 6))); nw += 1
+    src = chain[-1] if rng.random() < 0.8 else rng.choice(chain[1:])
+    st, sl, sn, sc = absr[src]
+    # a cell of the source that no deeper window of the chain covers: its last line / column when it has a child
+    deeper = [w for w in chain if w > src]
+    def inside():
+        if deeper:
+            dt, dl, dn, dc = absr[deeper[0]]
+            cand = [(y, x) for y in range(st, st + sn) for x in range(sl, sl + sc) if not (dt <= y < dt + dn and dl <= x < dl + dc)]
+            if cand: return rng.choice(cand)
+        return (rng.randint(st, st + sn - 1), rng.randint(sl, sl + sc - 1))
+    def anywhere(): return (rng.randint(0, L - 1), rng.randint(0, C - 1))
+    ups = [w for w in chain if w < src and w != 0]          # proper ancestors below the root window
+    def hacts():
+        acts = []
+        for _ in range(rng.choice([1, 1, 1, 2, 2, 3])):
+            r = rng.random()
+            tgt = rng.choice(ups) if ups and rng.random() < 0.65 else (src if rng.random() < 0.8 else rng.choice(chain))
+            if r < 0.50: acts.append("c%d" % tgt)
+            elif r < 0.62: acts.append("u%d" % tgt)
+            elif r < 0.72: acts.append("h%d" % tgt)
+            elif r < 0.80: acts.append("r%d" % tgt)
+            elif r < 0.88: acts.append("%s%d" % (rng.choice("RFLB"), tgt))
+            elif r < 0.94: acts.append("f")
+            else: acts.append("x")
+        return acts
+    def bind(w):
+        ret = rng.choice([1, 1, 1, 0])
+        acts = hacts()
+        if ret == 1:
+            # known finding cascade_steals_claim: a claiming mouse handler drops at most one window
+            seen = False; kept = []
+            for x in acts:
+                if x[0] == "u":
+                    if seen: continue
+                    seen = True
+                kept.append(x)
+            acts = kept
+        emit(("bind %d mouse %d %s" % (w, ret, " ".join(acts))).strip())
+    nbound = {}
+    early = rng.random() < 0.35
+    two_stage = rng.random() < 0.3       # the source claims DRAG_START quietly; what it does later is bound afterwards
+    def bind_src():
+        nbound[src] = nbound.get(src, 0) + 1
+        if two_stage: emit("bind %d mouse 1" % src)
+        else: bind(src)
+    if early: bind_src()
+    if rng.random() < 0.25:
+        w = rng.choice(chain); emit("bind %d mouse 0" % w); nbound[w] = nbound.get(w, 0) + 1
+    py, px = inside()
+    emit("mouse 1 1 %d %d" % (py, px))
+    if not early: bind_src()
+    src_id = nbound[src]
+    if rng.random() < 0.2: emit("flush")
+    y, x = inside() if rng.random() < 0.7 else anywhere()
+    emit("mouse 2 1 %d %d" % (y, x))                       # DRAG_START at the press position, then the DRAG itself
+    if two_stage:
+        # the handler that sees DRAG / DRAG_OUTSIDE / DRAG_DROP / DRAG_STOP (on_term_mouse dispatches the last ones straight to
+        # the drag source: no frame holds its ancestors)
+        if rng.random() < 0.8: emit("unbind %d %d" % (src, src_id))
+        ret = rng.choice([0, 0, 1])
+        acts = hacts()
+        # known findings cascade_steals_claim / cascade_steals_drag_frame: a handler that drops its own window and then a
+        # window above it makes the dying parent take the reference an internal frame holds: only the corpus probes do that
+        seen = False; kept = []
+        for a in acts:
+            if a[0] == "u":
+                if seen: continue
+                seen = True
+            kept.append(a)
+        emit(("bind %d mouse %d %s" % (src, ret, " ".join(kept))).strip())
+    # outside any handler: the application lets go of windows of the chain
+    order = [w for w in chain if w != 0]
+    rng.shuffle(order)
+    for w in order[:rng.choice([0, 1, 1, 2, 3])]:
+        r = rng.random()
+        if r < 0.70: emit("unref %d" % w)
+        elif r < 0.85: emit("close %d" % w)
+        else: emit("ref %d" % w); emit("unref %d" % w)
+    if rng.random() < 0.3: emit("flush")
+    for _ in range(rng.choice([0, 1, 1, 2, 3])):
+        y, x = inside() if rng.random() < 0.5 else anywhere()
+        emit("mouse 2 1 %d %d" % (y, x))
+        if rng.random() < 0.15:
+            w = rng.choice(order); emit("%s %d" % (rng.choice(["unref", "close"]), w))
+    if rng.random() < 0.85:
+        y, x = inside() if rng.random() < 0.5 else anywhere()
+        emit("mouse 3 1 %d %d" % (y, x))
+    if rng.random() < 0.3:
+        # a second gesture on what is left
+        y, x = anywhere(); emit("mouse 1 1 %d %d" % (y, x)); emit("mouse 2 1 %d %d" % anywhere())
+        if rng.random() < 0.5: emit("unref %d" % rng.choice(order))
+        emit("mouse 3 1 %d %d" % anywhere())
+    if rng.random() < 0.3: emit("flush")
+    emit("end")
+
 ASCII = [0x41 + i for i in range(26)] + [0x20, 0x61, 0x7e]
 def rand_text(rng, maxchars=8):
     out = []
@@ -789,7 +912,7 @@ if a.tier == "exhaustive":
     info.update({"exhaustive_bound": "all sequences of <=3 (and a seed-selected quarter of the length-4) operations over a 13-letter lifecycle alphabet on root>1>2, 3 sibling of 1, one pen, one self-unref key handler; each followed by flush and end; tickit_mockterm_get_display_text with every buffer length (short of the known exact-fill overflow) for every span of five fixed lines of multi-byte, double-width and combining cells; all sequences of <=3 operations over a 12-letter alphabet of terminal input calls with a quitting key handler on the terminal, and over a 14-letter alphabet of toplevel-instance calls on root>1>2; tickit_mockterm_resize from 3x4 to every size of 1..5 x 1..6 and on to a second size; all sequences of <=2 (and half of those of 3) operations over a 12-letter alphabet of observe/stop/destroy/SIGWINCH on four observing terminals", "histories": nh})
 else:
     scale = 1 if a.tier == "quick" else 5
-    fams = {"tree": 700, "handlers": 700, "foreign": 400, "objects": 400, "pens": 400, "copyout": 400, "terminput": 500, "toplevel": 500, "mockresize": 360, "sigwinch": 400}
+    fams = {"tree": 700, "handlers": 700, "foreign": 400, "objects": 400, "pens": 400, "copyout": 400, "terminput": 500, "toplevel": 500, "mockresize": 360, "sigwinch": 400, "drag": 400}
     if a.families:
         fams = {k: v for k, v in fams.items() if k in a.families.split(",")}
     for fam, n in fams.items():
@@ -804,6 +927,7 @@ else:
             elif fam == "toplevel": gen_toplevel_history(rng)
             elif fam == "mockresize": gen_mockresize_history(rng, (RESIZE_KINDS[(_ // 3) % 3], RESIZE_KINDS[_ % 3]))
             elif fam == "sigwinch": gen_sigwinch_history(rng)
+            elif fam == "drag": gen_drag_history(rng)
             else: gen_copyout_history(rng)
             fam_count[fam] = fam_count.get(fam, 0) + 1
     info = {"histories": sum(fam_count.values()), "families": fam_count, "mresize_combinations": resize_mix}
